@@ -242,7 +242,7 @@ Q q_clear() { M m{}; void* p = mk(m, NA); k_clear(p); m.clear(); chk(p, m); }
 // insert / emplace of one key: (.second, state) and, separately, the returned iterator
 // =====================================================================================================================
 #if SUBJ == 1
-#define KN_FULL(m, x) VF_KNOWN(C09_flat_set_insert_full, NA == CAP && !(m).contains(x))
+#define KN_FULL(m, x) VF_KNOWN(C09_flat_set_insert_full, (m).n == CAP && !(m).contains(x))
 #define FULL_OPEN KFOPEN(C09_flat_set_insert_full)
 #define KN_INS_IT(m, x) do { } while (0)
 #define IT_NEW_OPEN false
@@ -396,6 +396,7 @@ Q q_hist()
         if (op == 0) {
             KN_FULL(m, x); k_insert_l(p, x, ins); M::IR e = m.insert(x); vf_assert(*ins == e.inserted, "hist: insert().second == std::set");
             if (s == KSTEPS - 1 && KSTEPS > 1 && !e.inserted && !e.overflow) WIT("hist: last step inserts a duplicate");
+            if (KSTEPS > CAP && e.overflow && !FULL_OPEN) WIT("hist: new key refused by the full set");
         } else if (op == 1) {
             KN_FULL(m, x); k_emplace(p, x, ins); M::IR e = m.insert(x); vf_assert(*ins == e.inserted, "hist: emplace().second == std::set");
         } else if (op == 2) {
